@@ -38,6 +38,7 @@ type Prog struct {
 	Root     string
 	NumFiles int
 	ssa      *SSAInfo
+	refs     *Refs
 }
 
 // goEnv is the offline environment for the go command that go/packages shells out to:
@@ -100,11 +101,12 @@ func Load(dir string, patterns ...string) (*Prog, error) {
 	}
 	fset := token.NewFileSet()
 	cfg := &packages.Config{
-		Mode:  packages.LoadAllSyntax,
-		Dir:   filepath.Join(RepoRoot, dir),
-		Fset:  fset,
-		Tests: false,
-		Env:   goEnv(),
+		Mode:    packages.LoadAllSyntax,
+		Dir:     filepath.Join(RepoRoot, dir),
+		Fset:    fset,
+		Tests:   false,
+		Env:     goEnv(),
+		Overlay: LoadOverlay,
 	}
 	roots, err := packages.Load(cfg, patterns...)
 	if err != nil {
